@@ -131,6 +131,9 @@ func init() {
 			checkC05(ctx, &sc)
 			return
 		}
+		if ctx.Batch == 0 {
+			c05Concurrent(ctx)
+		}
 		r := ctx.Rng
 		// systematic part: one interference at a chosen cycle index, all modes, a grid of pwm values
 		idxs := []int{1, 2, 7, 40}
